@@ -352,6 +352,8 @@ def mutate_in_place(obj, mu):
     add = U.render_val(mu['add'])
     try:
         if isinstance(obj, dict):
+            if 'key' not in mu:      # the change was planned for a sequence / set, the value turned out to be a mapping: left alone
+                return
             obj[U.render_val(mu['key'])] = add
         elif isinstance(obj, (set,)):
             obj.add(add)
